@@ -221,8 +221,30 @@ def shape_info():
     r = O.call('c07_shape', [])
     return {'known': bool(r[0]), 'fixed': bool(r[1]), 'orig': bool(r[2]), 'd4': not r[4][3], 'acc_unguarded': not r[4][6], 'raw': r}
 
+def units_run_by_tool(case, runs, outs):
+    """unit ids the implementation actually enters on this input: the recorded calls of a completed
+    threads-1 run in which nothing is made to fail (None when there is no such observation)"""
+    for r, o in zip(runs, outs):
+        if r['threads'] == 1 and not r['fail'] and o is not None and 'worker_error' not in o \
+                and o.get('exc') is None and o.get('calls') is not None:
+            return set(o['calls'])
+    return None
+
 def evaluate(ctx, case, runs, outs, shape):
-    """returns (violations, stats)"""
+    """returns (violations, stats, raw).  The unit list is the generator's, checked against what the tool
+    runs: a generated unit the tool never enters although nothing fails (e.g. a record the tool merges with
+    another one or drops while loading) is not a processing unit of this input; it is removed together with
+    the runs that try to fail it, and counted (units_not_run_by_tool)."""
+    called = units_run_by_tool(case, runs, outs)
+    if called is not None:
+        ghosts = [u['uid'] for u in case['units'] if u['uid'] not in called]
+        if ghosts:
+            case2 = dict(case); case2['units'] = [u for u in case['units'] if u['uid'] not in ghosts]
+            keep = [i for i, r in enumerate(runs) if not (set(r['fail']) & set(ghosts))]
+            v, st, raw = evaluate(ctx, case2, [runs[i] for i in keep], [outs[i] for i in keep], shape)
+            st['units_not_run_by_tool'] += len(ghosts)
+            st['runs_dropped_with_ghost_units'] += len(runs) - len(keep)
+            return v, st, raw
     stats = collections.Counter()
     viol = []
     uids = [u['uid'] for u in case['units']]
@@ -458,7 +480,8 @@ def replay(ctx, obj):
     case = obj['case']
     f = obj.get('focus')
     uids = [u['uid'] for u in case['units']]
-    runs = [{'fail': sorted(u for u in uids if u != k), 'skip': True, 'threads': 1} for k in uids]
+    runs = [{'fail': [], 'skip': True, 'threads': 1}] + \
+           [{'fail': sorted(u for u in uids if u != k), 'skip': True, 'threads': 1} for k in uids]
     if f:
         runs.append({'fail': f['fail'], 'skip': f['skip'], 'threads': f['threads']})
     else:
